@@ -66,6 +66,8 @@ def obj_array(shape, fill):
 
 
 def _unbox(v):
+    if isinstance(v, _np.bool_):
+        return v
     if isinstance(v, _np.generic):
         return v.item()
     return v
@@ -73,7 +75,7 @@ def _unbox(v):
 
 def _inv(x):
     if isinstance(x, (bool, _np.bool_)):
-        return not x
+        return _np.bool_(not x)
     if isinstance(x, SB):
         return ~x
     if isinstance(x, SV):
@@ -147,9 +149,9 @@ _UN = {
     "invert": _inv, "logical_not": _inv,
     "rint": _sym1(lambda x: x.rint(), _np.rint),
     "floor": _sym1(lambda x: x.floor(), _np.floor), "ceil": _sym1(lambda x: x.ceil(), _np.ceil),
-    "isfinite": _sym1(lambda x: True, _np.isfinite),
-    "isnan": _sym1(lambda x: False, _np.isnan),
-    "isinf": _sym1(lambda x: False, _np.isinf),
+    "isfinite": _sym1(lambda x: _np.True_, _np.isfinite),
+    "isnan": _sym1(lambda x: _np.False_, _np.isnan),
+    "isinf": _sym1(lambda x: _np.False_, _np.isinf),
     "sqrt": ufs.s_sqrt, "log": ufs.s_log, "exp": ufs.s_exp,
     "square": _sym1(lambda x: x ** 2, _np.square),
     "sign": _sym1(_sign, _np.sign),
@@ -445,8 +447,8 @@ def _orl(vals):
         elif isinstance(v, SV):
             es.append(v.e != 0)
         elif bool(v):
-            return True
-    return mkbool(z3.Or(*es)) if es else False
+            return _np.True_
+    return mkbool(z3.Or(*es)) if es else _np.False_
 
 
 def _andl(vals):
@@ -457,8 +459,8 @@ def _andl(vals):
         elif isinstance(v, SV):
             es.append(v.e != 0)
         elif not bool(v):
-            return False
-    return mkbool(z3.And(*es)) if es else True
+            return _np.False_
+    return mkbool(z3.And(*es)) if es else _np.True_
 
 
 def _reduce_axis(a, axis, f, empty=None):
@@ -939,7 +941,7 @@ class NpProxy(types.ModuleType):
 
     def isreal(self, x):
         if isinstance(x, (SV, SB)):
-            return True
+            return _np.True_
         if _contains_sym(x):
             return _isreal(x)
         return _np.isreal(x)
